@@ -27,8 +27,8 @@ type acceptedClaim struct {
 }
 
 type c03Model struct {
-	claims map[string][]acceptedClaim // chain|nonce
-	done   map[string]bool
+	claims           map[string][]acceptedClaim // chain|nonce
+	done             map[string]bool
 	recCalls, recVal uint64
 }
 
